@@ -173,7 +173,10 @@ Inductive pop :=
 | PSleep
 | PWake.
 
-Definition gen_colors (n : Z) : list Z := map (fun k => Z.of_nat k mod 65536) (seq 0 (Z.to_nat n)).
+(* colour k of the stream is k mod 65536; counted in Z so that streams of 10^5 colours evaluate in linear time *)
+Fixpoint gen_colors_from (k : Z) (n : nat) : list Z :=
+  match n with O => [] | S n' => k mod 65536 :: gen_colors_from (k + 1) n' end.
+Definition gen_colors (n : Z) : list Z := gen_colors_from 0 (Z.to_nat n).
 
 (* fault-free step: events, result, state afterwards *)
 Definition step (st : dstate) (op : pop) : list event * res * dstate :=
